@@ -47,7 +47,7 @@ def analyse(prog):
                 unsafe.append((fn, c))
         if not groots:
             continue
-        der = derive(fn, None, groots, through_int=True)
+        der = derive(fn, None, groots, through_int=True, retmap=summ.retmap(fn))
         for i in fn.insts():
             op = i["op"]
             if op == "store":
